@@ -71,12 +71,17 @@ CallOf(e) ==
     [] OTHER         -> [op |-> e.op]
 
 \* line of the ret event that answers the call of thread t issued before line j
+\* (0: none before the end of the history).  Searched in chunks of 64 lines so
+\* that the recursion stays shallow however long a call was blocked.
+MinOf(S) == CHOOSE x \in S : \A y \in S : x <= y
 RECURSIVE NextRet(_, _)
 NextRet(t, j) ==
   IF j > N THEN 0
-  ELSE IF JTrace[j].e = "reset" THEN 0
-  ELSE IF JTrace[j].e = "ret" /\ JTrace[j].t = t THEN j
-  ELSE NextRet(t, j + 1)
+  ELSE LET hi == IF j + 63 < N THEN j + 63 ELSE N
+           W == {i \in j..hi : \/ JTrace[i].e = "reset"
+                               \/ (JTrace[i].e = "ret" /\ JTrace[i].t = t)}
+       IN IF W = {} THEN NextRet(t, hi + 1)
+          ELSE LET m == MinOf(W) IN IF JTrace[m].e = "reset" THEN 0 ELSE m
 
 \* the logged outcome e of call c is the outcome r of the sequential index
 RetMatches(e, c, r) ==
